@@ -234,9 +234,16 @@ def opEffect (gs : GS) (tf : Option Col) : DOp → Ctx × GS × Option Col × Li
       [.plain [66, 84], .font (fontName font) size, colOp false c, .num [84, 100] 2 [x, y],
        .showText wa, .plain [69, 84]])
   | .image name _ x y w h =>
-    -- `Page::draw_image` goes to `self.graphics_context` directly (no flush of the text buffer);
-    -- `save_state` / `restore_state` leave the colour state as it was
-    (.img, gs, tf, [.plain [113], .num [99, 109] 2 [w, zeroTok, zeroTok, h, x, y], .xobj name, .plain [81]])
+    -- `Page::draw_image` goes through `Page::graphics()` (text buffer flushed first, /repo fix of
+    -- C02-F3); `save_state` / `restore_state` leave the colour state as it was
+    (.gfx, gs, tf, [.plain [113], .num [99, 109] 2 [w, zeroTok, zeroTok, h, x, y], .xobj name, .plain [81]])
+
+/-- `opEffect` as the code was BEFORE the repair of C02-F3: `Page::draw_image` pushed into
+    `self.graphics_context` directly, without the flush of `Page::graphics()` -/
+def opEffectOld (gs : GS) (tf : Option Col) (op : DOp) : Ctx × GS × Option Col × List XOp :=
+  match op with
+  | .image .. => (.img, (opEffect gs tf op).2)
+  | _ => opEffect gs tf op
 
 /-- the three buffers of `Page` -/
 structure Bufs where
@@ -251,16 +258,24 @@ def pushOps (b : Bufs) : Ctx → List XOp → Bufs
   | .txt, ops => { page := b.page ++ b.gfx, gfx := [], txt := b.txt ++ ops }
   | .img, ops => { b with gfx := b.gfx ++ ops }
 
-def runOps : GS → Option Col → Bufs → List DOp → Bufs
+def runOpsWith (eff : GS → Option Col → DOp → Ctx × GS × Option Col × List XOp) :
+    GS → Option Col → Bufs → List DOp → Bufs
   | _, _, b, [] => b
   | gs, tf, b, op :: r =>
-    let e := opEffect gs tf op
-    runOps e.2.1 e.2.2.1 (pushOps b e.1 e.2.2.2) r
+    let e := eff gs tf op
+    runOpsWith eff e.2.1 e.2.2.1 (pushOps b e.1 e.2.2.2) r
+
+def runOps : GS → Option Col → Bufs → List DOp → Bufs := runOpsWith opEffect
 
 /-- the operators `generate_content` serialises, in the order it serialises them:
     `page_ops`, then the graphics tail, then the text tail -/
 def emitOps (p : PageD) : List XOp :=
   let b := runOps {} none {} p.ops
+  b.page ++ b.gfx ++ b.txt
+
+/-- the emitted order BEFORE the repair of C02-F3 (the regression the check must catch) -/
+def emitOpsOld (p : PageD) : List XOp :=
+  let b := runOpsWith opEffectOld {} none {} p.ops
   b.page ++ b.gfx ++ b.txt
 
 /-- the operators in CALL order (what the author asked for) -/
@@ -671,8 +686,8 @@ def observePage (p : PageD) : ExpPage :=
 
 def observe (d : Doc) : List ExpPage := d.pages.map observePage
 
-/-- the same with the operators in the order the library EMITS them (differs from `observePage`
-    exactly when an image is drawn while text is pending, see `Props/C02`) -/
+/-- the same with the operators in the order the library EMITS them (equal to `observePage`,
+    `C02_emit_is_call_order`) -/
 def observePageEmit (p : PageD) : ExpPage := { observePage p with ops := emitOps p }
 
 /-- the parsed operator a faithful content parser returns for an emitted operator (the
